@@ -347,6 +347,16 @@ abbrev Res := Except Err Unit
 /-- `is_protected_field` -/
 def isProtected (name : String) : Bool := KipGuardTables.protectedFields.contains name
 
+/-- how a guard walks what it guards, as regenerated from the loops of `guard_update` /
+`validate_clause` (`Gen/KipGuardTables.guardScans`): `every` element, or — any other answer — not
+every one (modelled as the first only; the exact shape no longer matters then: the theorems stop
+checking and the correspondence disagrees) -/
+def scanOf (site : String) : String :=
+  ((KipGuardTables.guardScans.find? (fun p => p.1 = site)).map Prod.snd).getD "first"
+
+def scanned {α : Type} (site : String) (xs : List α) : List α :=
+  if scanOf site = "every" then xs else xs.take 1
+
 /-! ## Collectors of `parser/common.rs` -/
 
 mutual
@@ -621,11 +631,11 @@ def validateValues : Assignments → Res
     | .ok _ => validateValues rest
 
 def checkAssignments (a : Assignments) : Res :=
-  match checkKeys (a.map Prod.fst) [] with
+  match checkKeys (scanned "validate_clause.keys" (a.map Prod.fst)) [] with
   | .error e => .error e
   | .ok _ => validateValues a
 
-def checkUnset (fields : List String) : Res := checkKeys fields []
+def checkUnset (fields : List String) : Res := checkKeys (scanned "validate_clause.keys" fields) []
 
 def checkOptAssignments : Option Assignments → Res
   | none => .ok ()
@@ -719,7 +729,7 @@ def guardActions (kind : Option BoundKind) : List UpdateAction → Res
   | a :: rest =>
     let r : Res :=
       match a with
-      | .setFields asg => guardImmutableFields kind (asg.map Prod.fst)
+      | .setFields asg => guardImmutableFields kind (scanned "guard_update.fields" (asg.map Prod.fst))
       | .setStructural _ => guardStructuralMutation kind
       | .unsetStructural _ => guardStructuralMutation kind
       | _ => .ok ()
@@ -773,7 +783,7 @@ def guardKinds (actions : List UpdateAction) : List BoundKind → Res
 
 /-- `guard_update` -/
 def guardUpdate (st : UpdateStatement) : Res :=
-  match guardKinds st.actions (updateKinds st) with
+  match guardKinds (scanned "guard_update.actions" st.actions) (scanned "guard_update.kinds" (updateKinds st)) with
   | .error e => .error e
   | .ok _ =>
     match targetVar st.target with
@@ -826,15 +836,15 @@ def validateActions : List UpdateAction → Res
 
 def validateRecordCreate (c : RecordCreate) : Res :=
   andThen (checkOptAssignments c.setFields) fun _ =>
-  andThen (checkFacets c.setFacets) fun _ =>
+  andThen (checkFacets (scanned "validate_clause.facets" c.setFacets)) fun _ =>
   checkOptEdges c.setStructural
 
 def validateUpsert (c : ConceptUpsert) : Res :=
   andThen (checkOptAssignments c.setFields) fun _ =>
   andThen (checkOptAssignments c.setAttributes) fun _ =>
-  andThen (checkFacets c.setFacets) fun _ =>
+  andThen (checkFacets (scanned "validate_clause.facets" c.setFacets)) fun _ =>
   andThen (match c.unsetAttributes with | none => .ok () | some fs => checkUnset fs) fun _ =>
-  andThen (checkFacetUnsets c.unsetFacets) fun _ =>
+  andThen (checkFacetUnsets (scanned "validate_clause.unset_facets" c.unsetFacets)) fun _ =>
   andThen (checkOptEdges c.setStructural) fun _ =>
   match c.mtch with
   | none => .error .upsertIdentity
@@ -847,7 +857,7 @@ def validateUpsert (c : ConceptUpsert) : Res :=
       | _ => .ok ()
 
 def validateUpdate (c : UpdateStatement) : Res :=
-  andThen (validateActions c.actions) fun _ =>
+  andThen (validateActions (scanned "validate_clause.update_actions" c.actions)) fun _ =>
   if c.actions.isEmpty then .error .noActions else guardUpdate c
 
 /-- the `match clause` of `validate_clause` -/
@@ -855,7 +865,7 @@ def validateClauseBody : MutationClause → Res
   | .createConcept c =>
     andThen (checkOptAssignments c.setFields) fun _ =>
     andThen (checkOptAssignments c.setAttributes) fun _ =>
-    andThen (checkFacets c.setFacets) fun _ =>
+    andThen (checkFacets (scanned "validate_clause.facets" c.setFacets)) fun _ =>
     checkOptEdges c.setStructural
   | .upsertConcept c => validateUpsert c
   | .createEvidence c => validateRecordCreate c
